@@ -198,8 +198,44 @@ def inline_unknown_helpers(facts):
                 _inline_call(raw, bi, callee.raw)
                 done.append((f.path, callee.path))
         if raw is not None:
+            _generic_comparisons_to_binops(raw)
             out[f.path] = Fn(raw)
     return out, done
+
+
+_CMP = {"lt": "Lt", "le": "Le", "gt": "Gt", "ge": "Ge"}
+
+
+def _generic_comparisons_to_binops(raw):
+    """inside an inlined generic helper (`fn in_range<T: PartialOrd>(v: T, lo: T, hi: T)`) an ordered comparison is a call to
+    `PartialOrd::le(&a, &b)` on the type parameter; at the place it was inlined into, it is the comparison `a <= b` of whatever flows in.
+    Rewritten into the MIR binary operation so that the interval / decision engines read the same program as for `lo <= v && v <= hi`
+    written in place.  Only comparisons whose type arguments are bare type parameters are touched."""
+    for b in raw["blocks"]:
+        t = b.get("term")
+        if not t or t["k"] != "call" or t.get("target") is None:
+            continue
+        m = re.search(r"^(?:std|core)::cmp::PartialOrd::(lt|le|gt|ge)$", t.get("callee") or "")
+        if not m or len(t["args"]) != 2:
+            continue
+        ga = t.get("gargs") or []
+        if not ga or not all(re.match(r"^[A-Z][A-Za-z0-9]{0,2}$", g) for g in ga):
+            continue
+        ops = []
+        for a in t["args"]:
+            if a["k"] == "const" or a["place"]["p"]:
+                ops = None
+                break
+            ty = raw["locals"][a["place"]["l"]].get("ty") or ""
+            if not ty.startswith("&"):
+                ops = None
+                break
+            ops.append({"k": "copy", "place": {"l": a["place"]["l"], "p": [{"k": "deref"}], "ty": ty[1:]}})
+        if not ops:
+            continue
+        b["stmts"].append({"k": "assign", "place": t["dest"], "rv": {"k": "binop", "op": _CMP[m.group(1)], "a": ops[0], "b": ops[1]},
+                           "span": t.get("span"), "expn": t.get("expn")})
+        b["term"] = {"k": "goto", "target": t["target"], "span": t.get("span"), "expn": t.get("expn")}
 
 
 # ------------------------------------------------------------------------------------------- combinator desugaring
